@@ -3,7 +3,7 @@
    Model: Model/PatchSum.v (distinfo.go computePatchSha1Hex / checkPatchSha1,
    autofix.go Replace), on top of Model/Lines.v.  Spec: Spec/PatchSumSpec.v.
    H is the hash (SHA-1 as lower-case hex); every theorem holds for every H. *)
-From PV Require Import Lib.Bytes Model.Lines Model.PatchSum Spec.PatchSumSpec Proofs.PatchSum.
+From PV Require Import Lib.Bytes Model.Lines Model.PatchSum Spec.PatchSumSpec Proofs.PatchSum Proofs.PatchSumCvs.
 Open Scope N_scope.
 
 (* the bytes pkglint hashes are, for every file content, the file with every line
@@ -75,6 +75,59 @@ Theorem C18_autofix_distinfo_partial : forall lines old new (j : nat) l,
 Proof. exact autofix_distinfo_partial. Qed.
 Print Assumptions C18_autofix_distinfo_partial.
 
+(* ---- the CVS gate (checkUncommittedPatch in front of checkPatchSha1) ---------
+   pkg / pd: the CVS/Entries and CVS/Entries.Log bytes (or their absence) of the
+   package directory and of the patches directory; name: the patch's base name. *)
+
+(* the gate never fails: loading the CVS files cannot panic *)
+Theorem C18_gate_total : forall (H : str -> str) pkg pd name alg p d,
+  exists w v, check_entry_cvs H pkg pd name alg p d = Ok (w, v).
+Proof. exact gate_total. Qed.
+Print Assumptions C18_gate_total.
+
+(* for a SHA1 line the verdict is exactly checkPatchSha1's, in every CVS state *)
+Theorem C18_gate_verdict_is_check : forall (H : str -> str) pkg pd name p d,
+  exists w, check_entry_cvs H pkg pd name sha1_name p d = Ok (w, Some (check_patch_sha1 H p d)).
+Proof. exact gate_verdict_is_check. Qed.
+Print Assumptions C18_gate_verdict_is_check.
+
+(* the verdict is a function of (algorithm, patch bytes, recorded hash) only:
+   any two CVS states give the same one *)
+Theorem C18_verdict_independent_of_cvs : forall (H : str -> str) pkg1 pd1 pkg2 pd2 name alg p d,
+  exists w1 w2 v,
+    check_entry_cvs H pkg1 pd1 name alg p d = Ok (w1, v) /\
+    check_entry_cvs H pkg2 pd2 name alg p d = Ok (w2, v).
+Proof. exact verdict_independent_of_cvs. Qed.
+Print Assumptions C18_verdict_independent_of_cvs.
+
+(* silent about the hash iff it is makepatchsum's digest, for every CVS state *)
+Theorem C18_accept_iff_equal_all_cvs : forall (H : str -> str) pkg pd name (s d : str),
+  (exists w, check_entry_cvs H pkg pd name sha1_name (Some s) d = Ok (w, Some Silent))
+  <-> d = makepatchsum H s.
+Proof. exact accept_iff_equal_all_cvs. Qed.
+Print Assumptions C18_accept_iff_equal_all_cvs.
+
+(* and otherwise the mismatch is reported with makepatchsum's digest, for every CVS state *)
+Theorem C18_reject_reports_digest_all_cvs : forall (H : str -> str) pkg pd name (s d : str),
+  d <> makepatchsum H s ->
+  exists w, check_entry_cvs H pkg pd name sha1_name (Some s) d
+            = Ok (w, Some (Differs d (makepatchsum H s))).
+Proof. exact reject_reports_digest_all_cvs. Qed.
+Print Assumptions C18_reject_reports_digest_all_cvs.
+
+(* the extra warning "registered in distinfo but not added to CVS" is emitted iff
+   distinfo is committed and the patch is not *)
+Theorem C18_uncommitted_warning_exact : forall (H : str -> str) pkg pd name alg p d w v,
+  check_entry_cvs H pkg pd name alg p d = Ok (w, v) ->
+  (w = true <-> is_committed pkg distinfo_name = Ok true /\ is_committed pd name = Ok false).
+Proof. exact uncommitted_warning_exact. Qed.
+Print Assumptions C18_uncommitted_warning_exact.
+
+(* without a readable CVS/Entries nothing counts as committed (Entries.Log alone does not) *)
+Theorem C18_no_entries_not_committed : forall l b, is_committed (mk_cvs_dir None l) b = Ok false.
+Proof. exact is_committed_no_entries. Qed.
+Print Assumptions C18_no_entries_not_committed.
+
 (* ---- non-vacuity ----------------------------------------------------------- *)
 
 (* "a\n$NetBSD: x $\r\nb" with H = identity: the tagged CRLF line goes, the
@@ -104,3 +157,35 @@ Example C18_witness_twin :
   autofix_distinfo [([twin_aa], Some [49]); ([twin_ab], Some [48])] [48] [49]
   = [[entry_line [112;97;116;99;104;45;97;97] [49]]; [twin_ab]].
 Proof. vm_compute. reflexivity. Qed.
+
+(* CVS states: "/distinfo/1.1/modified//" lists distinfo; "/patch-other/1.1/x//" does not
+   list patch-aa; Entries.Log "A /patch-aa/0/x//" adds it, a following "R /patch-aa/0/x//"
+   removes it again; "D/patches////" and a 4-field line are skipped *)
+Definition ex_distinfo_entry : str :=
+  [47;100;105;115;116;105;110;102;111;47;49;46;49;47;109;111;100;105;102;105;101;100;47;47;10].
+Definition ex_other_entry : str :=
+  [47;112;97;116;99;104;45;111;116;104;101;114;47;49;46;49;47;120;47;47;10].
+Definition ex_patch_aa : str := [112;97;116;99;104;45;97;97].
+Definition ex_log_add : str := [65;32;47;112;97;116;99;104;45;97;97;47;48;47;120;47;47;10].
+Definition ex_log_rm : str := [82;32;47;112;97;116;99;104;45;97;97;47;48;47;120;47;47;10].
+Definition ex_dir_entry : str := [68;47;112;97;116;99;104;45;97;97;47;47;47;47;10].
+Definition ex_short_entry : str := [47;112;97;116;99;104;45;97;97;47;49;47;10].
+Example C18_witness_cvs :
+  is_committed (mk_cvs_dir (Some ex_distinfo_entry) None) distinfo_name = Ok true /\
+  is_committed (mk_cvs_dir (Some ex_other_entry) None) ex_patch_aa = Ok false /\
+  is_committed (mk_cvs_dir (Some ex_other_entry) (Some ex_log_add)) ex_patch_aa = Ok true /\
+  is_committed (mk_cvs_dir (Some ex_other_entry) (Some (ex_log_add ++ ex_log_rm))) ex_patch_aa = Ok false /\
+  is_committed (mk_cvs_dir None (Some ex_log_add)) ex_patch_aa = Ok false /\
+  is_committed (mk_cvs_dir (Some (ex_dir_entry ++ ex_short_entry)) None) ex_patch_aa = Ok false.
+Proof. repeat split; vm_compute; reflexivity. Qed.
+
+(* the warning is emitted and the wrong hash is still reported; with the patch added
+   through Entries.Log only the hash verdict remains *)
+Example C18_witness_gate :
+  check_entry_cvs (fun x => x) (mk_cvs_dir (Some ex_distinfo_entry) None) (mk_cvs_dir (Some ex_other_entry) None)
+    ex_patch_aa sha1_name (Some ex_patch) [48] = Ok (true, Some (Differs [48] [97;10;98])) /\
+  check_entry_cvs (fun x => x) (mk_cvs_dir (Some ex_distinfo_entry) None) (mk_cvs_dir (Some ex_other_entry) (Some ex_log_add))
+    ex_patch_aa sha1_name (Some ex_patch) [48] = Ok (false, Some (Differs [48] [97;10;98])) /\
+  check_entry_cvs (fun x => x) (mk_cvs_dir (Some ex_distinfo_entry) None) (mk_cvs_dir None None)
+    ex_patch_aa sha1_name (Some ex_patch) [97;10;98] = Ok (true, Some Silent).
+Proof. repeat split; vm_compute; reflexivity. Qed.
